@@ -479,7 +479,7 @@ Ltac commit_case I Ef :=
 Lemma step_inv : forall s o, inv s -> wf_op o = true -> inv (fst (step s o)).
 Proof.
   intros s o I Hwf. unfold step.
-  destruct o as [name typ seed label enc pw n temp dfail | name pw n chg dfail | name pw num ea ca dfail
+  destruct o as [name typ seed coin label enc pw n temp dfail | name pw n chg dfail | name pw num ea ca dfail
                 | name label dfail | name pw dfail | name pw dfail | name seed pw dfail
                 | name | name pw fok label dfail | name fok label dfail]; cbn [step_gen].
   - (* Create *)
@@ -558,7 +558,7 @@ Proof.
     destruct (w_enc w) eqn:Ew; [|exact I]. cbn [negb].
     destruct (negb ((w_type w =? TDet) || (w_type w =? TBip))); [exact I|].
     destruct ((w_label w =? 0) || (seed =? 0)); [exact I|].
-    destruct (negb (fp_of (w_type w) seed =? fp w)) eqn:Efp; [exact I|].
+    destruct (negb (fp_of (w_type w) seed (w_coin w) =? fp w)) eqn:Efp; [exact I|].
     apply negb_false_iff in Efp. apply Z.eqb_eq in Efp.
     pose proof I as I'. destruct I' as [Um Ud Md U1 U2 F Fm Fd Nm Nd Cm Cd Ok Et].
     assert (Tw : w_temp w = false) by eauto.
@@ -713,7 +713,7 @@ Qed.
 (* ------------------------------------------------------------------ the unchanged tree (F20) *)
 
 Definition f20_history : list op :=
-  [Create "a.wlt" TDet 1 1 false 0 1 false false; Unload "a.wlt"; Create "b.wlt" TDet 1 2 false 0 1 false false].
+  [Create "a.wlt" TDet 1 0 1 false 0 1 false false; Unload "a.wlt"; Create "b.wlt" TDet 1 0 2 false 0 1 false false].
 
 Lemma f20_v0_refuted :
   forallb wf_op f20_history = true /\
@@ -723,18 +723,18 @@ Proof. vm_compute. repeat split; reflexivity. Qed.
 
 (* the same history on the current service: the second create is refused *)
 Lemma f20_now :
-  snd (step (run [Create "a.wlt" TDet 1 1 false 0 1 false false; Unload "a.wlt"] init)
-            (Create "b.wlt" TDet 1 2 false 0 1 false false)) = Some "ErrFingerprintConflict"%string.
+  snd (step (run [Create "a.wlt" TDet 1 0 1 false 0 1 false false; Unload "a.wlt"] init)
+            (Create "b.wlt" TDet 1 0 2 false 0 1 false false)) = Some "ErrFingerprintConflict"%string.
 Proof. vm_compute. reflexivity. Qed.
 
 (* non-vacuity: a history with a temporary wallet, an unloaded wallet, an
    encrypted one and a failed save; memory and directory differ as lists but
    agree in the sense of the theorem *)
 Definition ex_history : list op :=
-  [Create "a.wlt" TDet 1 1 false 0 2 false false;
-   Create "t.wlt" TDet 2 1 false 0 1 true false;
-   Create "c.wlt" TColl 0 3 true 2 0 false false;
-   Create "b.wlt" TBip 3 1 false 0 2 false false;
+  [Create "a.wlt" TDet 1 0 1 false 0 2 false false;
+   Create "t.wlt" TDet 2 0 1 false 0 1 true false;
+   Create "c.wlt" TColl 0 0 3 true 2 0 false false;
+   Create "b.wlt" TBip 3 2 1 false 0 2 false false;
    Encrypt "a.wlt" 1 false;
    NewAddr "a.wlt" 1 3 false true;
    NewAddr "a.wlt" 1 3 false false;
